@@ -8,6 +8,7 @@ mod c40;
 mod c44;
 mod compworld;
 mod access;
+mod adl;
 mod actions;
 mod c20;
 mod c21;
@@ -46,6 +47,7 @@ fn main() {
                 std::process::exit(2)
             }
         },
+        "C09" => adl::run(&cli),
         "C15" => c15::run(&cli),
         "C16" => cfgkeys::run_c16(&cli),
         "C17" => cfgkeys::run_c17(&cli),
